@@ -68,9 +68,12 @@ static SharedReader parse_kind( const std::string& s, size_t& p, std::vector<uns
     }
 }
 
+// the third-party BinaryBuffer does no bounds checking (not C01's subject): a mis-framed or truncated stream may read
+// past its entry before the per-entry length check fires, so every buffer gets zero padding behind the payload
+static const size_t PAD = 1 << 16;
 static std::vector<uint8_t> unhex( const std::string& h ) {
-    std::vector<uint8_t> v( h.size() / 2 );
-    for ( size_t i = 0; i < v.size(); i++ ) v[i] = (uint8_t)std::stoi( h.substr( 2 * i, 2 ), nullptr, 16 );
+    std::vector<uint8_t> v( h.size() / 2 + PAD, 0 );
+    for ( size_t i = 0; i < h.size() / 2; i++ ) v[i] = (uint8_t)std::stoi( h.substr( 2 * i, 2 ), nullptr, 16 );
     return v;
 }
 
@@ -104,7 +107,7 @@ int main() {
                 is >> flat >> dim >> n >> hex;
                 Bes3SymMatrixArrayReader<double> r( "m", flat, dim );
                 auto bytes = unhex( hex );
-                std::vector<uint32_t> offs = { 0, (uint32_t)bytes.size() };
+                std::vector<uint32_t> offs = { 0, (uint32_t)( bytes.size() - PAD ) };
                 py::array_t<uint8_t> data( bytes.size(), bytes.data() );
                 py::array_t<uint32_t> offsets( offs.size(), offs.data() );
                 BinaryBuffer buf( data, offsets );
@@ -122,7 +125,8 @@ int main() {
                     auto elem = parse_kind( spec, p, &vals );
                     Bes3TObjArrayReader r( "col", elem );
                     read_entries( r, bytes, offs );
-                    auto* t = dynamic_cast<py::tuple_impl*>( r.data().p.get() );
+                    auto dataobj = r.data();
+                    auto* t = dynamic_cast<py::tuple_impl*>( dataobj.p.get() );
                     os << "OK"; dump<uint32_t>( os, "offsets", t->items[0] );
                     os << " values=";
                     for ( size_t i = 0; i < vals.size(); i++ ) { if ( i ) os << ","; os << vals[i]; }
